@@ -58,8 +58,13 @@ func TracerouteSerial(ctx context.Context, t TracerouteDriver, p TracerouteSeria
 
 		if probe != nil {
 			log.Tracef("found probe %+v", probe)
+			// packets can get delivered twice - only use the first received probe to avoid overestimating RTT,
+			// but never let an ICMP response "cover up" an actual destination response (same rule as TracerouteParallel)
+			previous := results[probe.TTL]
+			if previous == nil || (!previous.IsDest && probe.IsDest) {
+				results[probe.TTL] = probe
+			}
 			// if we found the destination, no need to keep going
-			results[probe.TTL] = probe
 			if probe.IsDest {
 				break
 			}
